@@ -710,7 +710,7 @@ func IsValidFilter(filter string, forPublish bool) bool {
 	}
 
 	if forPublish {
-		if len(filter) >= len(SysPrefix) && strings.EqualFold(filter[0:len(SysPrefix)], SysPrefix) {
+		if strings.HasPrefix(filter, SysPrefix) { // topic names are case sensitive [MQTT-4.7.3-4]
 			// 4.7.2 Non-normative - The Server SHOULD prevent Clients from using such Topic Names [$SYS] to exchange messages with other Clients.
 			return false
 		}
